@@ -446,7 +446,8 @@ def gen_span_programs(tier: str, rnd: random.Random) -> list[dict]:
     modes = ["zero", "ff", "7f", "80", "small"] + ["random"] * (6 if quick else 40)
     for fam in ("ET", "DT", "ES"):
         for serial, rated in SERIALS[fam]:      # one serial per model-predicate class (phases, platform, MPPT count, batteries)
-            for port in ((8899,) if quick or fam == "ES" else (8899, 502)):
+            first = (serial, rated) == SERIALS[fam][0]
+            for port in ((8899,) if fam == "ES" or (quick and not first) else (8899, 502)):
                 fills = []
                 for m in modes:
                     if fam == "ES":
@@ -475,6 +476,12 @@ def gen_span_programs(tier: str, rnd: random.Random) -> list[dict]:
                 if fam in ("ET", "ES"):
                     extra += [{"api": "read_settings_data"}, {"api": "table:settings"}]
                 progs.append(program(fam, serial, rated, port, fills, extra))
+                if port == 502 and (first or not quick):
+                    # Modbus/TCP answers whose MBAP length field is not what the frame holds (the validator ignores the field)
+                    for mb in ("bytecount", "six", "zero", "max"):
+                        pm = program(fam, serial, rated, port, fills[:3] + fills[-4:], extra)
+                        pm["mbap"] = mb
+                        progs.append(pm)
     # ES blocks "of any announced length": every length of the runtime block 0..160 and of the settings block 0..100
     # (an answer may end in the middle of a field), two firmwares, random / 0xFF content
     serial = SERIALS["ES"][0][0]
